@@ -70,6 +70,23 @@ class Resp:
         self.headers = headers
 
 
+class FalsyResp(Resp):
+    """Like requests.Response: falsy for every error status (bool(response) is response.ok)."""
+
+    def __bool__(self):
+        return False
+
+
+class EmptyLenResp(Resp):
+    """A response object with a length of zero (e.g. an empty body) is falsy too."""
+
+    def __len__(self):
+        return 0
+
+
+RESP_KINDS = [Resp, Resp, FalsyResp, EmptyLenResp]
+
+
 def mk_exc(value, shape, casing, where, status=429):
     """Build an exception carrying `value` as its Retry-After in the given container shape."""
     e = Http429(status)
@@ -100,7 +117,7 @@ def mk_exc(value, shape, casing, where, status=429):
     if where == "headers":
         e.headers = h
     else:
-        e.response = Resp(h)
+        e.response = RESP_KINDS[(len(casing) + len(shape) + len(str(type(value)))) % len(RESP_KINDS)](h)
     # can the lookup be expected to find the value?
     if shape in ("dict", "dict+noise", "mapsub", "getitems", "pairs", "tuplepairs"):
         found = "yes"
@@ -233,6 +250,10 @@ def work(ctx, tier):
     for off in [-10**7, -86400, -3600, -1, 0, 30, 120, 3600, 86400, 10**6, 10**8]:
         d = (now + dt.timedelta(seconds=off)).replace(microsecond=0)
         date_cases.append((fixdate(d), d))
+        # zone-less and "-0000" forms denote UTC (RFC 5322 / email.utils): the hint must not depend on the process time zone
+        date_cases.append((d.strftime("%a, %d %b %Y %H:%M:%S"), d))
+        date_cases.append((d.strftime("%a, %d %b %Y %H:%M:%S -0000"), d))
+        date_cases.append((d.astimezone(dt.timezone(dt.timedelta(hours=5, minutes=30))).strftime("%a, %d %b %Y %H:%M:%S +0530"), d))
     odd_dates = [
         "Wed, 21 Oct 2015 07:28:00",  # naive
         "Wed, 21 Oct 2015 07:28:00 +0200",
@@ -288,14 +309,30 @@ def work(ctx, tier):
                         check_value(v, shape, casing, where, "odd-string")
         if mine():
             check_value(v, "dict", "Retry-After", "attr", "odd-string")
-    for v, d in date_cases:
-        for shape in SHAPES:
-            for casing in CASINGS:
-                for where in ("headers", "response"):
-                    if mine():
-                        check_value(v, shape, casing, where, "imf-fixdate", date_instant=d)
-        if mine():
-            check_value(v, "dict", "Retry-After", "attr", "imf-fixdate", date_instant=d)
+    import os as _os
+    import time as _time
+
+    tz_before = _os.environ.get("TZ")
+    try:
+        for tz in ("UTC0", "XST-9", "XST5", "XST-5:30"):
+            # the process time zone must not influence how a date is read (POSIX TZ strings: no tz database needed)
+            _os.environ["TZ"] = tz
+            _time.tzset()
+            ctx.cnt["timezone:" + tz] += 1
+            for v, d in date_cases:
+                for shape in SHAPES:
+                    for casing in CASINGS:
+                        for where in ("headers", "response"):
+                            if mine():
+                                check_value(v, shape, casing, where, "http-date", date_instant=d)
+                if mine():
+                    check_value(v, "dict", "Retry-After", "attr", "http-date", date_instant=d)
+    finally:
+        if tz_before is None:
+            _os.environ.pop("TZ", None)
+        else:
+            _os.environ["TZ"] = tz_before
+        _time.tzset()
     for v in odd_dates:
         for shape in ("dict", "pairs", "getonly"):
             for where in ("headers", "response", "attr"):
@@ -441,6 +478,8 @@ def conclude(ctx):
         "e2e:deadline-capped": (ctx.cnt["e2e:deadline-capped"], 100),
         "kind:non-string": (ctx.cnt["kind:non-string"], 200),
         "kind:odd-date": (ctx.cnt["kind:odd-date"], 50),
+        "timezone:XST-9": (ctx.cnt["timezone:XST-9"], 1),
+        "timezone:XST5": (ctx.cnt["timezone:XST5"], 1),
     }
     return dict(
         rule=(
@@ -454,7 +493,8 @@ def conclude(ctx):
         assumptions=[
             "three definite input classes get exact expectations (ASCII decimal integers within float range, IMF-fixdates, digit-free garbage); everything else gets safety only (no raise; hint None or a non-negative float)",
             f"dates are compared with datetime.now() within {DATE_TOL} s (datetime.now is a C slot and cannot be interposed)",
-            "header lookups are expected to succeed for Mapping, get+items and pair-list containers in any key casing, and for get-only containers in canonical/lower casing",
+            "header lookups are expected to succeed for Mapping, get+items and pair-list containers in any key casing, and for get-only containers in canonical/lower casing; response objects may be falsy (requests.Response is, for a 429)",
+            "HTTP-dates without a zone or with -0000 denote UTC; date cases are repeated under four process time zones (POSIX TZ strings)",
         ],
         exhaustive=False,
     )
